@@ -9,7 +9,8 @@ from .. import core, lexer, tlc
 from ..core import log
 
 PID = "C13"
-REAL = {"A": "alpha", "B": "beta", "C": "gamma", "dsf": "diff-so-fancy", "dh": "diff-highlight", "nav": "navigate"}
+REAL = {"A": "alpha", "B": "beta", "C": "gamma", "dsf": "diff-so-fancy", "dh": "diff-highlight", "nav": "navigate",
+        "sbs": "side-by-side", "ln": "line-numbers"}
 VAL = {"cli": "21", "gcp": "22", "main": "23", "c_A": "24", "c_B": "25", "c_C": "26", "c_dsf": "27", "c_nav": "28"}
 
 
@@ -49,6 +50,14 @@ def concretise(p, workdir, idx):
     return argv + ["--show-config"], env, path
 
 
+def shown_ln(out):
+    for line in lexer.strip_ansi(out).decode("utf-8", "replace").split("\n"):
+        m = re.match(r"^\s*line-numbers\s*=\s?(true|false)\s*$", line)
+        if m:
+            return m.group(1) == "true"
+    return None
+
+
 def shown_value(out):
     for line in lexer.strip_ansi(out).decode("utf-8", "replace").split("\n"):
         m = re.match(r"^\s*minus-style\s*=\s?(.*)$", line)
@@ -68,6 +77,9 @@ def run(tier):
     reg = tlc.run_tlc("MC_Options", cfg="MC_Options_regression", workers=4, coverage=False, timeout=900)
     if reg.violated != "Deterministic":
         raise core.ToolError("MC_Options_regression (HashMap order) did not violate Deterministic")
+    reg2 = tlc.run_tlc("MC_Options", cfg="MC_Options_regression2", workers=4, coverage=False, timeout=900)
+    if reg2.violated != "LnRight":
+        raise core.ToolError("MC_Options_regression2 (no recursion into built-in features without a gitconfig) did not violate LnRight")
     placements = [v["p"] for t, v in mc.printed if t == "REPLAY"]
     log(f"[{PID}] design level: {mc.distinct} states ({len(placements)} placements): procedural result within the documented "
         f"precedence and independent of flag order")
@@ -83,6 +95,7 @@ def run(tier):
         [p for p in placements if (dup(p["cliF"]) or dup(p["mainF"])) and not p["noGit"]],
         [p for p in placements if "nav" in p["custom"]],
         [p for p in placements if p["noGit"] and (p["gcp"] or p["main"] or p["custom"])],
+        [p for p in placements if "sbs" in p["cliF"] + p["mainF"] + p["envF"] + p["childA"] + p["flagsCli"] + p["flagsMain"] or "ln" in p["cliF"]],
     ]
     for st in strata:
         sel += rnd.sample(st, min(len(st), 600 if tier == "quick" else 6000))
@@ -97,22 +110,27 @@ def run(tier):
     for flag, src in (("--diff-so-fancy", "b_dsf"), ("--diff-highlight", "b_dh"), (None, "default")):
         r = core.run_delta(["--no-gitconfig"] + ([flag] if flag else []) + ["--show-config"], b"")
         names[shown_value(r.out)] = src
-    if len(names) != len(VAL) + 3:
+    # (in side-by-side view the built-in default of the option is spelt differently: 'syntax' instead of 'normal')
+    r = core.run_delta(["--no-gitconfig", "--side-by-side", "--show-config"], b"")
+    names.setdefault(shown_value(r.out), "default")
+    if len(set(names.values())) != len(VAL) + 3:
         raise core.ToolError(f"calibration of --show-config values is ambiguous: {names}")
 
     def one(ip):
         i, p = ip
         argv, env, path = concretise(p, work, i)
         reps = (3 if tier == "quick" else 6) if len(p["flagsMain"]) + len(p["flagsCli"]) >= 2 else 2
-        vals = []
+        vals, lns = [], []
         for _ in range(reps):
             r = core.run_delta(argv, b"", env=env)
             vals.append(names.get(shown_value(r.out), "unknown:" + str(shown_value(r.out))) if r.code == 0 else f"exit:{r.code}")
+            lns.append(bool(shown_ln(r.out)))
         os.unlink(path)
-        return vals
+        return vals, lns
 
     res = core.pmap(one, list(enumerate(sel)))
-    events = [{"run": i, "p": p, "values": vals} for i, (p, vals) in enumerate(zip(sel, res))]
+    events = [{"run": i, "p": p, "values": vals, "ln": lns} for i, (p, (vals, lns)) in enumerate(zip(sel, res))]
+    res = [v for v, l in res]
     n_sh = max(1, min(6, len(events) // 1500 + 1))
     outs = core.pmap(lambda ch: tlc.validate_trace("Trace_Options", ch, heap="3g"), [events[i::n_sh] for i in range(n_sh)], jobs=n_sh)
     failed = [f for fl, r in outs for f in fl]
